@@ -106,10 +106,13 @@ def check_zero_bound_bit_pattern(r, repo, f, rule="R19.7"):
         if not is_zero:
             continue
         bound = t.left.id
+        from sa.core import inline_locals
         views = [v for st in node.body for v in ast.walk(st) if isinstance(v, ast.Call) and isinstance(v.func, ast.Attribute) and v.func.attr == "view"]
-        raw = [v for v in views if isinstance(v.func.value, ast.Name) and v.func.value.id == bound]
-        normalised = [v for v in views if not isinstance(v.func.value, ast.Name) and any(isinstance(x, ast.Name) and x.id == bound for x in ast.walk(v.func.value))
-                      and any(isinstance(x, ast.Call) and (dotted(x.func) or "").split(".")[-1] in ("abs", "fabs", "absolute", "copysign") for x in ast.walk(v.func.value))]
+        # the receiver with single-definition locals replaced by their definitions (a helper's parameter, a named intermediate)
+        recv = {id(v): inline_locals(v.func.value, f) for v in views}
+        raw = [v for v in views if isinstance(recv[id(v)], ast.Name) and recv[id(v)].id == bound]
+        normalised = [v for v in views if not isinstance(recv[id(v)], ast.Name) and any(isinstance(x, ast.Name) and x.id == bound for x in ast.walk(recv[id(v)]))
+                      and any(isinstance(x, ast.Call) and (dotted(x.func) or "").split(".")[-1] in ("abs", "fabs", "absolute", "copysign") for x in ast.walk(recv[id(v)]))]
         if not raw and not normalised:
             continue
         n += 1
@@ -330,7 +333,7 @@ def run(repo, tier):
 
     # ------------------------------------------------------------------ R19.3 bounds are adjusted before they are used
     check_bounds_adjusted_before_use(r, repo, f)
-    check_zero_bound_bit_pattern(r, repo, f0)
+    check_zero_bound_bit_pattern(r, repo, f)
 
     # ------------------------------------------------------------------ R19.2
     callee_params = {}
